@@ -17,6 +17,7 @@ import (
 	"encoding/json"
 	"fmt"
 	"go/types"
+	"regexp"
 	"math/big"
 	"os"
 	"os/exec"
@@ -631,6 +632,27 @@ func (eng *Engine) replay(ob *Obligation) *replayResult {
 		res.Detail = "no comparable outputs"
 		return res
 	}
+	// the outputs compared must include something the failed clause speaks of; agreeing on unrelated fields
+	// (the others being pointers, interfaces or ghost state the harness cannot observe) confirms nothing
+	if ob.Kind != "safety" {
+		relevant := false
+		for _, k := range keys {
+			if _, ok := observed[k]; !ok {
+				continue
+			}
+			base := strings.TrimSuffix(k, "==nil")
+			if strings.Contains(ob.Text, base) {
+				relevant = true
+			}
+			if strings.HasPrefix(base, "res") && (strings.Contains(ob.Text, "result") || mentionsNamedResult(ex, ob.Text)) {
+				relevant = true
+			}
+		}
+		if !relevant {
+			res.Detail = "the outputs the harness can observe are not the ones the failed clause speaks of (pointers, interfaces or ghost state): not confirmed"
+			return res
+		}
+	}
 	if len(mism) > 0 {
 		res.Detail = "real code does not behave as the model predicts (abstraction too coarse?): " + strings.Join(mism, "; ")
 		return res
@@ -1055,4 +1077,22 @@ func (g *replayGen) generate() (string, bool) {
 	src.WriteString(body.String())
 	src.WriteString("\tdata, _ := json.Marshal(obs)\n\tfmt.Println(\"GOVC-OBSERVED \" + string(data))\n}\n")
 	return src.String(), true
+}
+
+
+// mentionsNamedResult: does the clause text use one of the function's named results?
+func mentionsNamedResult(ex *Exec, text string) bool {
+	if ex == nil || ex.fn == nil || ex.fn.Obj == nil {
+		return false
+	}
+	sig, ok := ex.fn.Obj.Type().(*types.Signature)
+	if !ok {
+		return false
+	}
+	for i := 0; i < sig.Results().Len(); i++ {
+		if n := sig.Results().At(i).Name(); n != "" && n != "_" && regexp.MustCompile(`\b`+regexp.QuoteMeta(n)+`\b`).MatchString(text) {
+			return true
+		}
+	}
+	return false
 }
